@@ -962,6 +962,7 @@ class Exec(Engine):
             post.sav = fresh('sav_post', so.TySeq)
         for m in c.modifies:
             ref = self.eval_place(m, pre, env)
+            self.detach_inner_refs(fn, ref, post, pre)
             new = fresh('yn_post', so.YNode)
             post.assume(so.is_N(new))
             post.write(ref, new)
@@ -974,6 +975,45 @@ class Exec(Engine):
             post.assume(so.is_N(new))
             ref = post.new_root(new, 'b')
             post.heap[obj.oid][m.attr] = ref
+
+    # callees known (by their verified bodies: the pair list is rebuilt by a
+    # filter, nothing is stored through a pair) not to touch the nodes below
+    # the one they restructure: a reference the caller still holds to such a
+    # node keeps denoting the node as it was before the call (A-DETACH)
+    DETACH_KEEPS = ('yatiml/helpers.py::Node.remove_attribute',)
+
+    def detach_inner_refs(self, fn, ref, post, pre):
+        """the callee restructures the node at `ref`: a local of the caller
+        that refers to a node strictly below it no longer denotes "the node at
+        that path" afterwards (indices shift, the node may have left the
+        tree).  Python keeps the object; the model detaches the local into a
+        read-only root: with the pre-call value for callees in DETACH_KEEPS,
+        with an unknown value otherwise."""
+        def below(r):
+            if not isinstance(r, VNodeRef) or r.root != ref.root:
+                return False
+            if len(r.path) <= len(ref.path):
+                return False
+            for (s1, i1), (s2, i2) in zip(ref.path, r.path):
+                if s1 != s2 or not (i1 is i2 or z3.eq(
+                        z3.simplify(i1 == i2), z3.BoolVal(True))):
+                    return False
+            return True
+        for name, v in list(post.env.items()):
+            if below(v):
+                if fn.qual in self.DETACH_KEEPS:
+                    self.assume_note(
+                        'A-DETACH: Node.remove_attribute does not modify the '
+                        'node it removes (its verified body rebuilds the pair '
+                        'list by a filter); a reference held by the caller '
+                        'keeps the pre-call value')
+                    t = pre.deref(v)
+                else:
+                    t = fresh('yn_detached', so.YNode)
+                    post.assume(so.is_N(t))
+                nr = post.new_root(t, 'd')
+                post.stale = post.stale | {nr.root}
+                post.env[name] = nr
 
     def eval_place(self, e, st, env):
         """evaluate a place expression (self.yaml_node, node,
